@@ -33,6 +33,9 @@ DT_CORE = [
     "dt(2021,1,1,0,0,0,tz=Z('America/New_York'))", "dt(2021,4,4,1,45,tz=Z('Australia/Lord_Howe'))",
     "'2022-02-02T02:02:02.123456+00:00'", "'2022-02-02 02:02:02'", "'2022-02-02T02:02:02Z'", "'2022-02-02T02:02:02+0530'",
     "1600000000", "1600000000.5", "0", "-1",
+    # the second occurrence of a repeated wall time (fold=1), and fold=1 where it means nothing
+    "dt(2020,10,25,2,30,tz=Z('Europe/Amsterdam'),fold=1)", "dt(2021,4,4,1,45,tz=Z('Australia/Lord_Howe'),fold=1)",
+    "dt(2020,6,1,12,0,0,tz=off(5,30),fold=1)", "dt(2020,6,1,12,0,0,tz=UTC,fold=1)", "dt(2020,6,1,12,0,0,fold=1)",
 ]
 DIGEST_CORE = [
     "('d41d8cd98f00b204e9800998ecf8427e', None, None)",
